@@ -423,6 +423,31 @@ def run_env(hid, header, items, rnd):
             if bad:
                 report("C18", hid, idx, bad, op)
                 return
+    # the pure-Python runner on an environment that already has a history: `run` returns the environment's own
+    # market-data dictionary (documented keys bound to the full series), for 0 and for a few more steps
+    pkg = sys.modules.get("bourse")
+    ss = getattr(pkg, "step_sim", None)
+    if ss is None:
+        report("C19", hid, idx, ["python_package_step_sim_does_not_import"], "run")
+    else:
+        for env, use_np in ((e_again, False), (ne, True)):
+            if env is None:
+                continue
+            for k in (0, 2):
+                try:
+                    before = len(env.get_market_data()["trade_vol"])
+                    out = ss.run(env, [], k, 11, show_progress=(k == 2), use_numpy=use_np)
+                    md = env.get_market_data()
+                    bad = []
+                    if set(out.keys()) != set(md.keys()):
+                        bad.append("runner_keys_differ")
+                    elif any(len(out[key]) != before + k or list(out[key]) != list(md[key]) for key in md):
+                        bad.append("runner_series_differ_from_environment")
+                    if bad:
+                        report("C19", hid, idx, bad, f"run_{'numpy' if use_np else 'plain'}_{k}")
+                    bump("runner_calls")
+                except BaseException as ex:  # noqa: BLE001
+                    report("C19", hid, idx, ["runner_exception_" + type(ex).__name__], "run")
     bump("env_histories")
     if ne is not None:
         bump("env_histories_with_numpy_env")
